@@ -117,6 +117,13 @@ def check(case, stats=None):
                 fa0 = bnp.open_indexed(path)
                 got0 = fa0[prior["records"][0][0]].to_string()
                 fa0._f_obj.close()
+                if case.get("genome_route") and all("_" not in r_[0] for r_ in recs):
+                    # ... and is read through the genome object as well, as the file that replaces it will be
+                    p0 = prior["records"][0]
+                    gseq0 = bnp.Genome.from_file(path).read_sequence()
+                    g0 = gseq0.extract_intervals(Interval([p0[0]], np.array([0]), np.array([len(p0[2])]))).tolist()[0].upper()
+                    if g0 != p0[2].upper():
+                        return [Failure("C17:interval-sequences:genome-route", {"in_prior_file": True, "expected": p0[2][:80], "actual": g0[:80]})]
             except Exception as e:
                 return [Failure(f"C17:raised:prior-file:{type(e).__name__}:{_where(e)}", {"error": repr(e)[:300]})]
             if got0 != prior["records"][0][2]:
